@@ -505,6 +505,64 @@ func checkC12(c *Ctx) {
 		}
 	}
 
+	// ---- C12.12 "a station ingesting that message ends up with that same phantom": once the station has taken the address
+	// out of the response it is not dropped again - the value stored into PhantomIp never becomes nil on a path that has
+	// already passed the point where the override was read (a local plausibility test that resets it makes station and
+	// client disagree about the phantom)
+	r.Rule("C12.12", "the phantom taken from the response is not discarded again before it is stored", 1)
+	if f := c.fn("C12.12", "pkg/station/lib", "RegistrationManager", "NewRegistrationC2SWrapper"); f != nil {
+		n := 0
+		for _, st := range fieldStores(f, "lib.DecoyRegistration", "PhantomIp") {
+			n++
+			// blocks in which an override value is computed: the non-nil, non-phi leaves of the stored value
+			var leaves []ssa.Value
+			type nilEdge struct{ pred *ssa.BasicBlock }
+			var nils []nilEdge
+			seenV := map[ssa.Value]bool{}
+			var walk func(v ssa.Value)
+			walk = func(v ssa.Value) {
+				if seenV[v] {
+					return
+				}
+				seenV[v] = true
+				if ph, ok := v.(*ssa.Phi); ok {
+					for i, e := range ph.Edges {
+						if cst, isC := e.(*ssa.Const); isC && cst.Value == nil {
+							if i < len(ph.Block().Preds) {
+								nils = append(nils, nilEdge{ph.Block().Preds[i]})
+							}
+							continue
+						}
+						walk(e)
+					}
+					return
+				}
+				leaves = append(leaves, v)
+			}
+			walk(st.Val)
+			bad := false
+			for _, ne := range nils {
+				for _, lf := range leaves {
+					in, ok := lf.(ssa.Instruction)
+					if !ok || in.Block() == nil {
+						continue
+					}
+					if in.Block() == ne.pred {
+						bad = true
+					}
+					if hit, _ := reachAt(f, in.Block(), func(x ssa.Instruction) bool { return x.Block() == ne.pred }, nil, nil); hit && in.Block() != ne.pred {
+						bad = true
+					}
+				}
+			}
+			r.Check(!bad && len(leaves) > 0, "C12.12", "NewRegistrationC2SWrapper: the response's address reaches PhantomIp once it was read", st.Pos(), fnName(f), fmt.Sprintf("%d source(s); no nil arrives from a block behind them", len(leaves)),
+				"after the phantom address was taken from the registration response it can be reset to 'none' (a local test on the station decides): the client was told the registrar's phantom, the forwarded message carries it, and the station registers the address it derived itself")
+		}
+		if n == 0 {
+			r.Unk("C12.12", "NewRegistrationC2SWrapper: store to PhantomIp", f.Pos(), fnName(f), "not found")
+		}
+	}
+
 	// ---- C12.11 what the client was told travels to the stations in the field they read: the forwarded wrapper carries the
 	// response itself (RegistrationResponse), whether or not the signed serialisation is attached as well - only nil tests
 	// and error returns may decide whether the field is filled
